@@ -16,6 +16,8 @@ def key(i):
 
 
 def do_case(ctx, inp):
+    if inp.get("model_context"):
+        return do_model_context(ctx, inp)
     ids = [tuple(i) if isinstance(i, list) else i for i in inp["ids"]]
     bnds = inp["bnds"]
     fix = lambda i: tuple(i) if isinstance(i, list) else i
@@ -157,8 +159,44 @@ def do_no_columns(ctx, inp):
         ctx.fail("A-b-split-wrong-without-variable-columns", {"got": got, "want": want})
 
 
+def do_model_context(ctx, inp):
+    """list conversions against the columns of a MODEL's polyhedron: those columns are labelled with the proposition objects
+    themselves (compound columns are AtLeast / All / … objects); the caller lists plain variables or ids, compound ids
+    among them (from `from_strings`, from JSON, from what assume() leaves of a fixed compound)"""
+    from trees import build, snap, is_var
+    o = build(inp["ast"])
+    poly = o.to_ge_polyhedron(active=inp["active"])
+    if inp.get("reduced"):
+        nA = poly.A.shape[1]
+        poly = poly.reduce_columns(np.array([np.nan] * nA))
+    vs = list(poly.A.variables)
+    ids = [v.id for v in vs]
+    lst = [i for i in inp["lst"] if i in ids]
+    ctx.case(inp, nontrivial=any(not is_var(v) or hasattr(v, "propositions") for v in vs), tags={"context-is-a-model-polyhedron", "listed-as-" + inp["form"]})
+    if not lst: return
+    lv = [puan.variable(i) for i in lst] if inp["form"] == "variables" else list(lst)
+    fb = [int(x) for x in pnd.boolean_ndarray.from_list(lv, vs).tolist()]
+    fi = [int(x) for x in pnd.integer_ndarray.from_list(lv, vs).tolist()]
+    wb, wi = [int(i in lst) for i in ids], [(1 + lst.index(i)) if i in lst else 0 for i in ids]
+    if fb != wb:
+        ctx.fail("boolean-from_list-wrong", {"context": "columns of the model's polyhedron", "ids": ids, "listed": lst, "got": fb, "want": wb}); return
+    if fi != wi:
+        ctx.fail("integer-from_list-wrong", {"context": "columns of the model's polyhedron", "ids": ids, "listed": lst, "got": fi, "want": wi}); return
+    back = [v.id for v in pnd.boolean_ndarray(np.array(wb), variables=vs).to_list()]
+    if back != [i for i in ids if i in lst]:
+        ctx.fail("to_list-wrong", {"context": "columns of the model's polyhedron", "got": back})
+
+
 def run(ctx):
     rng = ctx.rng
+    from trees import gen_valid, subs, free01
+    for _ in range((60 if ctx.quick else 400) * (3 if ctx.search else 1)):
+        a, o, t = gen_valid(rng, ctx.quick, wide_p=0.0, twins=False)
+        if not free01(t): continue
+        allids = sorted({n["id"] for n in subs(t)})
+        lst = rng.sample(allids, rng.randint(1, min(4, len(allids))))
+        do_model_context(ctx, {"ast": a, "active": rng.random() < 0.5, "lst": lst, "form": "variables",
+                               "reduced": rng.random() < 0.2, "model_context": True})
     for _ in range(12 if ctx.quick else 60):
         do_no_columns(ctx, {"b": [rng.randint(-3, 4) for _ in range(rng.randint(1, 3))], "labelled": rng.random() < 0.5, "named": rng.random() < 0.3})
     n = (300 if ctx.quick else 5000) * (3 if ctx.search else 1)
